@@ -354,3 +354,34 @@ Proof.
     apply binary_exact in H. destruct H as (-> & -> & B).
     simpl. rewrite (IHl _ _ EA Sl eq_refl), (IHr _ _ EA Sr eq_refl). simpl. now rewrite B.
 Qed.
+
+(* ------------------------------------------------------------------ corollaries and refutation witnesses *)
+Open Scope string_scope.
+
+Lemma accepted_value : forall cenv env e t v v', env_agree cenv env ->
+  c_eval cenv e = Some (t, v, true) -> py_eval env e = Ok v' -> v' = v.
+Proof.
+  intros cenv env e t v v' EA H P. destruct (agree_exact cenv env e t v EA H) as [Q|Q]; rewrite Q in P;
+    [now inversion P|discriminate].
+Qed.
+
+Lemma refuted_0u_minus_1 :
+  c_eval [] (Binary "-" (lit "0u") (lit "1")) = Some (T RInt false, 4294967295, false) /\
+  py_eval [] (Binary "-" (lit "0u") (lit "1")) = Ok (-1).
+Proof. split; vm_compute; reflexivity. Qed.
+
+Lemma refuted_hex_plus_1 :
+  c_eval [] (Binary "+" (lit "0xFFFFFFFF") (lit "1")) = Some (T RInt false, 0, false) /\
+  py_eval [] (Binary "+" (lit "0xFFFFFFFF") (lit "1")) = Ok 4294967296.
+Proof. split; vm_compute; reflexivity. Qed.
+
+Lemma refuted_neg_hex :
+  c_eval [] (Unary "-" (lit "0x80000000")) = Some (T RInt false, 2147483648, false) /\
+  py_eval [] (Unary "-" (lit "0x80000000")) = Ok (-2147483648).
+Proof. split; vm_compute; reflexivity. Qed.
+
+Lemma full_statement_refuted :
+  ~ (forall e t v f v', c_eval [] e = Some (t, v, f) -> py_eval [] e = Ok v' -> v' = v).
+Proof.
+  intros H. destruct refuted_0u_minus_1 as [A B]. specialize (H _ _ _ _ _ A B). discriminate H.
+Qed.
